@@ -113,7 +113,9 @@ Route(a) == IF Dev = "split" THEN (a.id % nw) + 1 ELSE (a.k % nw) + 1   \* locHa
 Active(w) == h[w].id # 0
 Cur(w)    == ops[h[w].id].a
 Dec(w)    == Decide(Cur(w), h[w].hit, h[w].cv, h[w].rs)
-AtGate(w) == Gated /\ (Len(h[w].rs) + 1) \in Cur(w).g
+(* gate positions of an operation: 1, 2 = its first / second store callback, 3 = its cache Set/Delete *)
+AtGate(w) == Gated /\ (IF Dec(w).t = "call" THEN (Len(h[w].rs) + 1) \in Cur(w).g
+                       ELSE Dec(w).c # "none" /\ 3 \in Cur(w).g)
 Unfinished == {i \in 1..Len(ops) : ops[i].st # "done"}
 
 (* nothing can move by itself: the executor's global quiescence *)
@@ -159,17 +161,21 @@ Start(w) ==
   /\ last' = [op |-> "int"]
 
 Arrive(w) ==
-  /\ Active(w) /\ Dec(w).t = "call" /\ AtGate(w) /\ ~h[w].wait
+  /\ Active(w) /\ AtGate(w) /\ ~h[w].wait
   /\ h' = [h EXCEPT ![w].wait = TRUE]
   /\ UNCHANGED <<nw, lru, store, cache, q, ops, acck>>
   /\ last' = [op |-> "int"]
 
+(* a gated step happens on an external release, in an otherwise quiescent state *)
+GateOK(w, ext) ==
+  IF AtGate(w) THEN ext /\ h[w].wait /\ \A v \in Ws \ {w} : (IF Active(v) THEN h[v].wait ELSE q[v] = <<>>)
+                    /\ \A i \in 1..Len(ops) : ops[i].st # "enq"
+  ELSE ~ext
+
 (* one store callback; ext = TRUE: the release of a gated callback (external step) *)
 Call(w, ext) ==
   /\ Active(w) /\ Dec(w).t = "call"
-  /\ IF AtGate(w) THEN ext /\ h[w].wait /\ \A v \in Ws \ {w} : (IF Active(v) THEN h[v].wait ELSE q[v] = <<>>)
-                       /\ \A i \in 1..Len(ops) : ops[i].st # "enq"
-     ELSE ~ext
+  /\ GateOK(w, ext)
   /\ LET a == Cur(w)
          n == Len(h[w].rs) + 1
          d == Dec(w)
@@ -182,8 +188,9 @@ Call(w, ext) ==
                        ELSE [op |-> "call", id |-> h[w].id, k |-> a.k, fn |-> d.fn]
   /\ UNCHANGED <<nw, lru, cache, q, acck>>
 
-Fin(w) ==
+Fin(w, ext) ==
   /\ Active(w) /\ Dec(w).t = "fin"
+  /\ GateOK(w, ext)
   /\ LET a == Cur(w)
          d == Dec(w)
      IN /\ cache' = CASE d.c = "set" -> [cache EXCEPT ![w][a.k] = d.v]
@@ -191,8 +198,9 @@ Fin(w) ==
                       [] OTHER -> cache
         /\ ops' = [ops EXCEPT ![h[w].id] = NewOp(a, "done")]
         /\ acck' = [acck EXCEPT ![a.k] = SelectSeq(@, LAMBDA x : x # h[w].id)]
-        /\ last' = [op |-> "fin", id |-> h[w].id, aop |-> a.op, k |-> a.k, r |-> d.r,
-                    n |-> Len(h[w].rs), hit |-> h[w].hit, cached |-> h[w].anyc]
+        /\ last' = IF ext THEN [op |-> "rel", id |-> h[w].id]
+                   ELSE [op |-> "fin", id |-> h[w].id, aop |-> a.op, k |-> a.k, r |-> d.r,
+                         n |-> Len(h[w].rs), hit |-> h[w].hit, cached |-> h[w].anyc]
   /\ h' = [h EXCEPT ![w] = Idle]
   /\ UNCHANGED <<nw, lru, store, q>>
 
@@ -205,7 +213,7 @@ Evict(w, k) ==
 
 (* failure / gate patterns (repeated entries only weight the random walk of plan generation) *)
 FPats == IF FreeFail THEN <<{}>> ELSE <<{}, {}, {}, {1}, {2}, {1, 2}>>
-GPats == IF Gated THEN <<{}, {}, {1}, {2}, {1, 2}>> ELSE <<{}>>
+GPats == IF Gated THEN <<{}, {}, {1}, {2}, {3}, {1, 2}, {1, 3}, {2, 3}>> ELSE <<{}>>
 
 InitWith(n, l) ==
   /\ nw = n /\ lru = l
@@ -222,7 +230,7 @@ Next ==
   \/ \E o \in OpNames, k \in Keys, fi \in DOMAIN FPats, gi \in DOMAIN GPats :
         Submit([op |-> o, k |-> k, id |-> Len(ops) + 1, d |-> Len(ops) + 1, f |-> FPats[fi], g |-> GPats[gi]])
   \/ \E i \in 1..Len(ops) : Enq(i)
-  \/ \E w \in Ws : Start(w) \/ Arrive(w) \/ Call(w, FALSE) \/ Call(w, TRUE) \/ Fin(w)
+  \/ \E w \in Ws : Start(w) \/ Arrive(w) \/ Call(w, FALSE) \/ Call(w, TRUE) \/ Fin(w, FALSE) \/ Fin(w, TRUE)
   \/ \E w \in Ws, k \in Keys : Evict(w, k)
 Spec == Init /\ [][Next]_allvars
 
